@@ -243,6 +243,7 @@ func vpOpenWithRepair(walFile string) *BaseWAL {
 // afterwards a fresh reader returns every record whose WriteSync returned nil, in order, and only
 // written records; SearchForEndHeight finds exactly the durably written markers.
 func vpC15WAL(k int, crashes int) {
+	vp.Opt("goroutines", 64)
 	dir := vp.TempDir()
 	walFile := dir + "/wal"
 	w, err := NewWAL(walFile, autofile.GroupCheckDuration(time.Hour))
